@@ -5,6 +5,7 @@ from __future__ import annotations
 import numpy as np
 
 from gridrv import core, instrument
+from gridrv.monitors import roundtrip
 from gridrv.oracles import bandlimited_c09 as blo
 from gridrv.oracles import sph
 
@@ -37,6 +38,14 @@ REQUIRED_HOOKS = [
     "pair:centre",
     "pair:weights",
     "pair:rotated",
+    "clone:copy",
+    "clone:deepcopy",
+    "clone:pickle",
+    "clone:pickle2",
+    "clone:rotated",
+    "clone:off-centre",
+    "clone-variant:fresh",
+    "clone-variant:used",
     "point-form:int64",
     "point-form:float32",
     "point-form:strided-rows",
@@ -71,7 +80,10 @@ RULE = (
     "freshly built twin of X1 and of X0), ALL clauses decided on every use with a fresh function. In atom and molecule cases the "
     "returned callable is additionally evaluated (values and all five derivative modes) at points given as int64/int32 lattice "
     "arrays, float32, row-/column-strided views, Fortran order and read-only arrays and compared with the float64 C-contiguous "
-    "copy of the same numbers; func_vals is also passed as a strided view / read-only. A case is non-trivial when L >= 1 "
+    "copy of the same numbers; func_vals is also passed as a strided view / read-only. In every atom case the grid is cloned once "
+    "(copy.copy / copy.deepcopy / pickle / pickle protocol 2, drawn per case; half of the cases before its first use, half after) "
+    "with gridrv.monitors.roundtrip.check_clone, ALL clauses are decided on the clone with a fresh function, and an interpolant "
+    "built before cloning must return bitwise the same values/derivatives afterwards. A case is non-trivial when L >= 1 "
     "and all clauses were evaluated; distinct = distinct generator parameters (grids and functions differ by seed)."
 )
 ASSUMPTIONS = [
@@ -358,6 +370,32 @@ def _run_atom(ctx, params):
         g, info = _build_atom(ctx, params, rng)
     if g is None:
         return
+    # a copy.copy / copy.deepcopy / pickle clone of the grid is still "the grid built with these arguments": the same
+    # post-conditions are run on it.  Half of the cases clone the FRESH object (nothing cached yet), the other half clone it
+    # after it has been used; an interpolant built before cloning must be unaffected by the cloning.
+    kind = roundtrip.pick(rng, 1)[0]
+    used_first = bool(rng.random() < 0.5)
+    F0 = P0 = v0 = None
+    if used_first:
+        with ctx.guard("interpolant-unaffected-by-cloning", "AtomGrid.interpolate"):
+            c0 = info["center"]
+            f0 = blo.BandLimited(rng, int(np.min(g.degrees)) // 2, float(np.median(g.rgrid.points[g.rgrid.points > 1e-6])), c0)
+            F0 = g.interpolate(f0(g.points))
+            P0 = np.vstack([c0 + rng.normal(size=(10, 3)) * float(np.median(g.rgrid.points)), g.points[:: max(1, g.size // 10)]])
+            v0 = [np.asarray(F0(P0)), np.asarray(F0(P0, deriv=1)), np.asarray(F0(P0, deriv=2, only_radial_deriv=True))]
+    ctx.hit("clone-variant:" + ("used" if used_first else "fresh"))
+    gc = roundtrip.check_clone(ctx, "AtomGrid", g, kind)
+    if F0 is not None and v0 is not None:
+        with ctx.guard("interpolant-unaffected-by-cloning", "AtomGrid.interpolate"):
+            v1 = [np.asarray(F0(P0)), np.asarray(F0(P0, deriv=1)), np.asarray(F0(P0, deriv=2, only_radial_deriv=True))]
+            same = all(a.shape == b.shape and np.array_equal(a, b, equal_nan=True) for a, b in zip(v0, v1))
+            ctx.check("interpolant-unaffected-by-cloning", "AtomGrid.interpolate:" + kind, same, sig="values-changed")
+    if gc is not None:
+        if gc.rotate:
+            ctx.hit("clone:rotated")
+        if np.any(gc.center):
+            ctx.hit("clone:off-centre")
+        _check_grid(ctx, gc, info, rng, note="clone:", n_generic=8)
     _check_grid(ctx, g, info, rng, forms=True)
 
 
